@@ -68,7 +68,7 @@ def main(argv=None) -> int:
             print(f"  {v.get('what')}")
     if unlisted > 25:
         print(f"  ... and {unlisted - 25} more violations of {prop}")
-    if not a.replay:
+    if not a.replay and prop != "SELFTEST":
         cov = out["coverage"]
         cov.setdefault("known_findings_matched", sorted(announced))
         p = report.write_evidence(prop, tier, seed(), cov, timer.s(), unlisted, out.get("assumptions", []),
